@@ -490,7 +490,7 @@ def check_C12(chk, tier, seed):
     rng = Rng(seed).fork("C12")
     eng = engine_codec.setup(chk, rng, need_limit=False)
     cases = regress_schedules("C12")
-    kinds = ["eof", "reset", "garbage", "unknownavp", "oversized", "short"]
+    kinds = ["eof", "reset", "garbage", "unknownavp", "oversized", "short", "dpr", "dwr"]
     # 1..4 outstanding x which answers were already delivered x how the stream ends (incl. every cut offset of a partial answer)
     for n in (1, 2, 3, 4):
         hops = [0x20 + i for i in range(n)]
@@ -616,6 +616,21 @@ def check_C12(chk, tier, seed):
     for k, (nout, kind) in enumerate([(260, "garbage"), (270, "eof"), (258, "reset")] if tier == "quick" else [(260, "garbage"), (270, "eof"), (258, "reset"), (290, "garbage"), (257, "eof"), (280, "unknownavp")]):
         toks = [f"RN {nout} {hx(0x2000)}", f"BB {kind} 130 {hx(0x1000)} {k % 8}"]
         cases.append((line(toks), toks, "burst"))
+    # hop-by-hop ids that agree in their low 8 / 12 / 16 / 24 bits, outstanding together and answered in both orders: each future gets
+    # its own answer - an id is all 32 bits of it
+    for ids in (("7", "107"), ("7", "1007"), ("7", "10007"), ("7", "1000007"), ("7", "2b5a1007"), ("ffffffff", "ffff"), ("80000000", "0")):
+        for order in ((0, 1), (1, 0)):
+            toks = [f"R {ids[0]}", "W", f"R {ids[1]}", "W"] + [f"P {ids[j]}" for j in order]
+            cases.append((line(toks), toks, "random"))
+    # a peer that sends a REQUEST of its own (Disconnect-Peer, Device-Watchdog) while requests are outstanding and keeps the connection
+    # open: nobody is waiting for it; whatever the reader does about it, the outstanding futures complete
+    for kind in ("dpr", "dwr"):
+        for toks in (["R f1", "W", f"B {kind}"], ["R f1", "W", "R f2", "W", "P f2", f"B {kind}", "R f3", "W"], [f"B {kind}", "R f1", "W"]):
+            cases.append((line(toks), toks, "random"))
+    # an answer of 70 000 / 300 000 octets (client driven by a current-thread runtime, as here): delivered like any other
+    for n in (70000, 300000):
+        toks = ["R a7", "W", "R a8", "W", f"PL a8 {hx(n)}", "P a7"]
+        cases.append((line(toks), toks, "random"))
     # a future that was looked at once while pending and is then awaited by another task: when the reader stops (or the answer comes)
     # it is THAT task that must be woken
     for toks in (["R e1", "W", "AW 0", "B eof"], ["R e1", "W", "R e2", "W", "AW 1", "AW 0", "B garbage"], ["R e1", "W", "T 3e8", "AW 0", "T 3e8", "B reset"],
